@@ -114,6 +114,14 @@ def points(g, seed, tier):
         S = ref.pt_mul(ref.G1_GEN, SMALL_X_SCALAR, 1)
         assert S[0].bit_length() <= 352 and (S[0] + ref.q) >> 352 == ref.q >> 352
         pts = pts[:2] + [S, ref.pt_neg(S, 1)] + pts[2:]
+    else:
+        # G2 points with a coordinate component whose leading byte equals the modulus' (0x1a): a canonical-form test that compares the
+        # leading bytes first has its tie case there (1.6e-4 of all points per component; found once by a scan over small multiples of
+        # the generator, re-verified here). With them the "+ q" and stray-bit variants of the OTHER component of the same coordinate
+        # are checked behind a tie of the first one.
+        T = [ref.pt_mul(ref.G2_GEN, k, 2) for k in (3327, 381)]
+        assert T[0][0][1] >> 376 == 0x1a and T[1][1][1] >> 376 == 0x1a
+        pts = pts[:2] + T + pts[2:]
     return pts
 
 
